@@ -24,7 +24,7 @@ import (
 
 // C16 — regex functions match Go regexp; pattern cache is exact, bounded, thread-safe.
 
-const ruleC16 = "rapid regex: (s, p, r) with p from a regex grammar (literals, classes, '.', * + ? {m,n}, capturing groups up to 12 so that $10 vs $1 matters, non-capturing groups, alternation, anchors, (?i)), s over a small alphabet, sometimes with multi-byte characters (a literal, the string-value of a node, or - for the empty string - the empty node-set), r made of literal characters and $n with 1 <= n <= groups, sometimes directly followed by a digit or a letter; plus constant invalid patterns, plus 'pair' cases: matches() with two resembling patterns (suffix/prefix added, one character changed, upper-cased, or independent) in one expression, each answer belonging to its own pattern, plus 'dynamic' cases: 2-5 items carrying their own subject, pattern, replacement and (precomputed) expected result as attributes, judged by one compiled //i[matches(@s, string(@p))] / //i[replace(@s, string(@p), string(@r)) = @e]. Oracle: matches(s,p) = regexp.MustCompile(p).MatchString(s); replace(s,p,r) = ReplaceAllString with every $n read as group n (longest valid group number), cross-checked by a manual expansion from FindAllStringSubmatchIndex; an invalid constant pattern in matches() is a Compile error. rapid cache histories: a cache from NewLoadingCache with capacity 0..5 (one case in six: 9..17 or 31..33, filled first) and a counting, sometimes-failing load function; actions get(key) over a key alphabet larger than the capacity, swapping xpath.RegexpCache for a small custom cache while matches()/replace() are evaluated, and (race build) a block of g goroutines x keys. Invariants after every step: the value returned is the load of exactly the requested key; entries <= capacity when capacity > 0; a cached key is answered without loading and with the stored value; a missing key is loaded exactly once; a failed load is not remembered (the next get loads again); no data race. Non-trivial: regex case with >= 1 group reference or a match; history that crosses the capacity boundary (a reset happened) or contains a failed load followed by a retry; distinct by (s,p,r) / (capacity, history)."
+const ruleC16 = "rapid regex: (s, p, r) with p from a regex grammar (literals, classes, '.', * + ? {m,n}, capturing groups up to 12 so that $10 vs $1 matters, non-capturing groups, alternation, anchors, (?i)), s over a small alphabet, sometimes with multi-byte characters or with characters a lexer might skip or fold (U+FEFF, U+00A0, U+200B, U+2028, U+0085, U+1F600; also in p and r) (a literal, the string-value of a node, or - for the empty string - the empty node-set), r made of literal characters and $n with 1 <= n <= groups, sometimes directly followed by a digit or a letter; plus constant invalid patterns, plus 'pair' cases: matches() with two resembling patterns (suffix/prefix added, one character changed, upper-cased, or independent) in one expression, each answer belonging to its own pattern, plus 'dynamic' cases: 2-5 items carrying their own subject, pattern, replacement and (precomputed) expected result as attributes, judged by one compiled //i[matches(@s, string(@p))] / //i[replace(@s, string(@p), string(@r)) = @e]. Oracle: matches(s,p) = regexp.MustCompile(p).MatchString(s); replace(s,p,r) = ReplaceAllString with every $n read as group n (longest valid group number), cross-checked by a manual expansion from FindAllStringSubmatchIndex; an invalid constant pattern in matches() is a Compile error. rapid cache histories: a cache from NewLoadingCache with capacity 0..5 (one case in six: 9..17 or 31..33, filled first) and a counting, sometimes-failing load function; actions get(key) over a key alphabet larger than the capacity, swapping xpath.RegexpCache for a small custom cache while matches()/replace() are evaluated, and (race build) a block of g goroutines x keys. Invariants after every step: the value returned is the load of exactly the requested key; entries <= capacity when capacity > 0; a cached key is answered without loading and with the stored value; a missing key is loaded exactly once; a failed load is not remembered (the next get loads again); no data race. Non-trivial: regex case with >= 1 group reference or a match; history that crosses the capacity boundary (a reset happened) or contains a failed load followed by a retry; distinct by (s,p,r) / (capacity, history)."
 
 var (
 	uC16Regex = harness.NewUnit("C16", "rapid-regex", ruleC16)
@@ -80,7 +80,7 @@ func (g *rxGen) atom(depth int) string {
 		}
 		return "b"
 	}
-	return rapid.SampledFrom([]string{"a", "b", "ab", "a", "b", "é", "中"}).Draw(g.rt, "lit2")
+	return rapid.SampledFrom([]string{"a", "b", "ab", "a", "b", "é", "中", "\ufeff", "\u00a0", "\U0001f600"}).Draw(g.rt, "lit2")
 }
 
 func (g *rxGen) piece(depth int) string {
@@ -285,6 +285,11 @@ func TestC16Regex(t *testing.T) {
 			alphabet = []rune("aabé中c1A ")
 		case 4:
 			alphabet = []rune("aab\\.c1 ") // a backslash is an ordinary character of an XPath literal, also as its last one
+		case 3:
+			// characters a lexer might think it may skip or fold: zero-width no-break space (the
+			// byte order mark), no-break space, zero-width space, line separator, next line, and
+			// one outside the basic plane - inside a literal each is just a character
+			alphabet = []rune("ab\ufeff\u00a0\u200b\u2028\u0085\U0001f600")
 		}
 		s := rapid.StringOfN(rapid.SampledFrom(alphabet), 0, 8, -1).Draw(rt, "s")
 		r := ""
@@ -293,7 +298,7 @@ func TestC16Regex(t *testing.T) {
 			for i := 0; i < n; i++ {
 				switch rapid.IntRange(0, 3).Draw(rt, "rkind") {
 				case 0:
-					r += rapid.SampledFrom([]string{"x", "-", "[", "]", " ", "7", "\\"}).Draw(rt, "rlit")
+					r += rapid.SampledFrom([]string{"x", "-", "[", "]", " ", "7", "\\", "\ufeff", "\u00a0"}).Draw(rt, "rlit")
 				default:
 					k := 1
 					if g.groups > 0 {
